@@ -217,6 +217,17 @@ class Norm:
         self.P = P
         self.fn = fn
         self.defs = single_defs(fn)
+        # parameters that are modified in the body (fmt++ ...): a local initialised from one is a snapshot, not an alias
+        self.mut_params = set()
+        for e, _ in ir.all_exprs(fn['body']):
+            for x in ir.walk(e):
+                if x[0] == 'un' and x[1] in ('pre++', 'pre--', 'post++', 'post--') and ir.top_nocast(x[2])[0] == 'param':
+                    self.mut_params.add(ir.top_nocast(x[2])[2])
+                elif x[0] == 'assign' and ir.top_nocast(x[2])[0] == 'param':
+                    r = ir.top_nocast(x[3])
+                    # `key = cast(key, T)` keeps the identity of the object; any other assignment changes the value
+                    if not (r[0] == 'call' and ir.callee_name(r) == 'cast' and ir.top_nocast(r[2][0]) == ir.top_nocast(x[2])):
+                        self.mut_params.add(ir.top_nocast(x[2])[2])
         self.expand_locals = expand_locals
         self.inline = inline
         self.keep = set(keep)       # accessor names not to inline
@@ -227,7 +238,7 @@ class Norm:
             return None
         t = ir.top_nocast(d)
         if t[0] == 'param':
-            return t
+            return t if t[2] not in self.mut_params else None
         if t[0] == 'local':
             return self._alias(t[2]) or None
         return None
